@@ -24,7 +24,9 @@ package snapshot
 //@   modifies nothing
 
 // The manifest is replaced (second os.Create) only after the state file of the new snapshot has been opened, written and
-// synced (call counters): a crash in between never leaves a manifest that names a snapshot missing from the disk.
+// synced (call counters), and only if that write and that sync reported no error (callok: the error result of the most recent
+// call): a crash in between never leaves a manifest that names a snapshot missing from the disk, and a failed attempt
+// leaves the previous snapshot in place.
 // The clock may advance while the snapshot is written (flag clockadvances): the time read first (msec) names the snapshot
 // directory, is recorded in the manifest and becomes the last-save time.
 //@ func (*Engine).TakeSnapshot clockadvances props C10,C03
@@ -33,6 +35,8 @@ package snapshot
 //@   ensures {C03} lastsave: result == nil ==> $lastsave >= unixmilli(old($now)) && $lastsave <= unixmilli($now)
 //@   ensures {C03} counted: result == nil ==> atomic(engine.changeCount) == 0
 //@   assert @Create#1 {C10} state-before-manifest: calls(OpenFile) == 1 && calls(Sync) >= 1 && calls(Write) >= 1
+//@   assert @Create#1 {C10} state-written: callok(Write)
+//@   assert @Create#1 {C10} state-synced: callok(Sync)
 //@   assert @Marshal#2 {C10} manifest-names-dir: manifest.LatestSnapshotMilliseconds == msec
 //@   assert @setLatestSnapshotTimeFunc#0 {C03,C10} lastsave-is-dir: msec == manifest.LatestSnapshotMilliseconds
 //@   modifies *
